@@ -8,7 +8,7 @@
    method is in it; otherwise 405).  [gate r] = xsrf_cookies is on and the method
    is not exactly GET/HEAD/OPTIONS. *)
 From Coq Require Import List NArith ZArith Bool.
-From TV Require Import C18.Model C18.Proofs C24.Model C24.Run C24.Proofs C24.Proofs2 C24.Proofs3 C24.Proofs4.
+From TV Require Import C18.Model C18.Proofs C24.Model C24.Run C24.Proofs C24.Proofs2 C24.Proofs3 C24.Proofs4 C24.Args C24.ProofsP4.
 Import ListNotations.
 Local Open Scope N_scope.
 
@@ -209,3 +209,61 @@ Theorem C24_issued_token_accepted_via_cookie_header :
     /\ status (handle (apply_header (Some (pre ++ 59 :: sp ++ XSRF_NAME ++ 61 :: c)) r0)) <> 403%Z.
 Proof. exact issued_token_accepted_via_cookie_header. Qed.
 Print Assumptions C24_issued_token_accepted_via_cookie_header.
+
+(* 11. Transport of the token through request ARGUMENTS (query string and
+       urlencoded body: & and = splitting, + and %XX decoding, query values then
+       body values, last value wins, utf-8 decoding; then the two headers). *)
+Theorem C24_input_token_precedence :
+  forall r,
+    (exists v, last_opt (r_fields r) = Some v /\ norm_field v <> [] /\ input_token r = Some (norm_field v))
+    \/ ((last_opt (r_fields r) = None \/ exists v, last_opt (r_fields r) = Some v /\ norm_field v = [])
+        /\ ((exists h, r_hx r = Some h /\ h <> [] /\ input_token r = Some h)
+            \/ ((r_hx r = None \/ r_hx r = Some []) /\ input_token r = r_hc r))).
+Proof. exact input_token_precedence. Qed.
+Print Assumptions C24_input_token_precedence.
+
+Theorem C24_urlencoded_spelling_decodes :
+  forall e s, enc e s -> qs_unquote e = s.
+Proof. exact qs_unquote_enc. Qed.
+Print Assumptions C24_urlencoded_spelling_decodes.
+
+Theorem C24_xsrf_argument_appended_last :
+  forall pre en ev tk,
+    enc en XSRF_NAME -> enc ev tk ->
+    xsrf_values (pre ++ 38 :: en ++ 61 :: ev) = xsrf_values pre ++ [tk]
+    /\ xsrf_values (en ++ 61 :: ev) = [tk].
+Proof. exact xsrf_values_append. Qed.
+Print Assumptions C24_xsrf_argument_appended_last.
+
+Theorem C24_issued_token_accepted_through_arguments :
+  forall r r0 tk q b pre en ev fs,
+    bytes (r_rnd r) -> bytes (r_mask r) -> r_rnd r <> [] ->
+    token (handle r) = Some tk ->
+    enc en XSRF_NAME -> enc ev tk ->
+    (b = pre ++ 38 :: en ++ 61 :: ev \/ b = en ++ 61 :: ev
+     \/ (xsrf_values b = [] /\ (q = pre ++ 38 :: en ++ 61 :: ev \/ q = en ++ 61 :: ev))) ->
+    fields_of_args q b = Some fs ->
+    declared r0 = true ->
+    r_cookie r0 = match set_cookie (handle r) with Some c => Some c | None => r_cookie r end ->
+    ran (handle (with_fields r0 fs)) = true /\ status (handle (with_fields r0 fs)) <> 403%Z.
+Proof. exact issued_token_accepted_through_arguments. Qed.
+Print Assumptions C24_issued_token_accepted_through_arguments.
+
+Theorem C24_issued_token_accepted_through_headers :
+  forall r r0 tk,
+    bytes (r_rnd r) -> bytes (r_mask r) -> r_rnd r <> [] ->
+    token (handle r) = Some tk ->
+    (last_opt (r_fields r0) = None \/ exists v, last_opt (r_fields r0) = Some v /\ norm_field v = []) ->
+    (r_hx r0 = Some tk \/ ((r_hx r0 = None \/ r_hx r0 = Some []) /\ r_hc r0 = Some tk)) ->
+    declared r0 = true ->
+    r_cookie r0 = match set_cookie (handle r) with Some c => Some c | None => r_cookie r end ->
+    ran (handle r0) = true /\ status (handle r0) <> 403%Z.
+Proof. exact issued_token_accepted_through_headers. Qed.
+Print Assumptions C24_issued_token_accepted_through_headers.
+
+Theorem C24_model_satisfies_check_with_raw_arguments :
+  forall c : case2,
+    bytes (r_rnd (snd (snd c))) -> bytes (r_mask (snd (snd c))) -> r_rnd (snd (snd c)) <> [] ->
+    check_case2 c (run_case2 c) = true.
+Proof. exact model_satisfies_check_case2. Qed.
+Print Assumptions C24_model_satisfies_check_with_raw_arguments.
